@@ -967,6 +967,81 @@ fn sweep_rule_only(ctx: &Ctx, tabs: &Tables, years: i64, include_noninterleaving
     t
 }
 
+/// rule-only zones searched in the first and last years the rule arithmetic supports (I4: local and UTC year of every
+/// candidate instant inside [i32::MIN + 2, i32::MAX - 2]); the model evaluates the rule directly (no year window)
+fn sweep_rule_extreme_years(ctx: &Ctx) -> Tally {
+    let cyc = ctx.cyc;
+    let days = quick_days();
+    let combos = quick_combos();
+    let nd = days.len();
+    let (ylo, yhi) = (i32::MIN as i64 + 2, i32::MAX as i64 - 2);
+    let t = (0..nd * nd)
+        .into_par_iter()
+        .map(|ij| {
+            let (i, j) = (ij / nd, ij % nd);
+            let mut tl = Tally::default();
+            let r = guard(|| {
+                let mut tl = Tally::default();
+                for &(st, et, o) in combos.iter() {
+                    let r = spec(days[i], days[j], st, et, o);
+                    let (ms, md) = (crate::rule::std_type(&r), crate::rule::dst_type(&r));
+                    if alt(&r, &ms, &md).is_err() {
+                        continue;
+                    }
+                    let rule = MRule::alt(cyc, r, ms, md);
+                    if !matches!(rule, MRule::Alt { class: Class::StartFirst | Class::EndFirst, .. }) {
+                        continue;
+                    }
+                    let z = MZone { trans: vec![], types: vec![ms, md], leaps: vec![], rule: Some(rule) };
+                    let iz = ImplZone::from_model(&z).unwrap();
+                    let zr = iz.zref().unwrap();
+                    tl.zones += 1;
+                    let mut ls: Vec<i64> = vec![];
+                    for y in [ylo, ylo + 1, yhi - 1, yhi] {
+                        for x in [r.s(cyc, y), r.e(cyc, y)] {
+                            for off in [r.std_off, r.dst_off] {
+                                for d in -1..=1 {
+                                    ls.push(x + off + d);
+                                }
+                            }
+                            ls.push(x + (r.std_off + r.dst_off) / 2);
+                        }
+                        ls.push((r.s(cyc, y) + r.e(cyc, y)) / 2 + r.std_off);
+                        // both ends of the year
+                        let ny = cyc.timegm(y, 1, 1, 0, 0, 0);
+                        let ny1 = cyc.timegm(y + 1, 1, 1, 0, 0, 0);
+                        for l in [ny, ny + 1, ny + 86_400 * 20, ny1 - 1, ny1 - 86_400 * 20] {
+                            ls.push(l);
+                        }
+                    }
+                    ls.sort();
+                    ls.dedup();
+                    for &l in &ls {
+                        let in_domain = [l, l - r.std_off, l - r.dst_off].iter().all(|&t| {
+                            let yy = cyc.gmtime(t).0.year;
+                            yy >= ylo && yy <= yhi
+                        });
+                        if !in_domain {
+                            continue;
+                        }
+                        if let Some(f) = Fields::of_local(cyc, l, 7) {
+                            check_search(ctx, &z, zr, &f, "rule_extreme_years", &mut tl);
+                        }
+                    }
+                }
+                tl
+            });
+            match r {
+                Ok(t) => tl = tl.merge(t),
+                Err(m) => ctx.rec.violation("rule_extreme_years", json!({"kind":"rule_row","start":days[i].text(),"end":days[j].text()}), json!("no panic"), json!(m)),
+            }
+            tl
+        })
+        .reduce(Tally::default, Tally::merge);
+    ctx.rec.sub("rule_extreme_years", t.json());
+    t
+}
+
 /// table + DST rule: the last table transition sits at delta from a rule transition
 fn sweep_junction(ctx: &Ctx, tabs: &Tables, thorough: bool) -> Tally {
     let cyc = ctx.cyc;
@@ -1208,6 +1283,8 @@ pub fn run_sweeps(ctx: &Ctx, tabs: &Tables, thorough: bool, light: bool) -> Tall
     total = total.merge(sweep_rule_only(ctx, tabs, if thorough { 120 } else if light { 6 } else { 30 }, false, "rule_only"));
     // 3b. non-interleaving accepted rules (keeps KF2 observable; any other failure mode is a violation)
     total = total.merge(sweep_rule_only(ctx, tabs, if thorough { 60 } else { 10 }, true, "rule_only_non_interleaving"));
+    // 3c. first and last years of the rule arithmetic
+    total = total.merge(sweep_rule_extreme_years(ctx));
     // 4. junction
     total = total.merge(sweep_junction(ctx, tabs, thorough));
     // real zones
